@@ -256,7 +256,8 @@ def layout(ctx, rule="C16.layout"):
                 "BaseFockState.dm / reduced_dm / trace / all_fock_probs and FockBackend.state for every n <= 4, pure and "
                 "mixed data, every subset and order of requested modes: traces pair the ket and bra axis of one mode, the "
                 "axes kept are exactly those of the requested modes in the requested order (or the call raises), and the "
-                "label attached to position j names the mode whose axes sit at position j.")
+                "label attached to position j names the mode whose axes sit at position j; the modes requested from FockBackend.state are "
+                "lifetime mode indices (a deleted mode shifts the positions of the later ones).")
     fs = ctx.tree.cls(ST, "BaseFockState")
     fb = ctx.tree.cls("backends/fockbackend/backend.py", "FockBackend")
     circ = ctx.tree.cls("backends/fockbackend/circuit.py", "Circuit")
@@ -331,11 +332,13 @@ def layout(ctx, rule="C16.layout"):
                     else:
                         mp.append(c)
                         c += 1
-                subsets = [None] + [list(p) for k in range(1, min(n, 3) + 1) for p in itertools.permutations(range(n), k)]
+                # requests are LIFETIME mode indices (as for every other backend method and backend): ext lists the live ones
+                subsets = [None] + [list(p) for k in range(1, min(n, 3) + 1) for p in itertools.permutations(ext, k)]
                 for modes in subsets:
                     def fn(m, n=n, pure=pure, modes=modes, mp=mp):
                         cobj = Obj(__class__=circ, _state=Tensor(canonical(n, pure)), _pure=pure, _trunc=TRUNC, _num_modes=n)
-                        b = Obj(__class__=fb, circuit=cobj, _modemap=Obj(_map=list(mp)))
+                        b = Obj(__class__=fb, circuit=cobj, _modemap=Obj(__class__=ctx.tree.cls("backends/base.py", "ModeMap"),
+                                                                        _map=list(mp), _init=len(mp)))
                         return m.call(f_st, [], {"modes": modes}, b)
 
                     def check(r, n=n, pure=pure, modes=modes, ext=ext):
@@ -343,13 +346,15 @@ def layout(ctx, rule="C16.layout"):
                             return "no state object constructed"
                         a = r.attrs["__args__"]
                         data, nm, p_flag, names = a[0], a[1], a[2], a[4] if len(a) > 4 else r.attrs["__kwargs__"].get("mode_names")
-                        want_modes = list(range(n)) if modes is None else list(modes)
+                        want_ext = list(ext) if modes is None else list(modes)
+                        want_modes = [ext.index(mm) for mm in want_ext]  # positions of the requested modes in the tensor
                         if nm != len(want_modes):
                             return f"num_modes {nm} for {len(want_modes)} requested modes"
                         exp = tuple(("K", mm) for mm in want_modes) if p_flag else interleaved(want_modes)
                         if not isinstance(data, Tensor) or data.labels != exp:
-                            return f"data axes {data} with pure={p_flag}, expected {Tensor(exp)}"
-                        wn = ["q[{}]".format(ext[mm]) for mm in want_modes]
+                            return (f"data axes {data} with pure={p_flag}, expected {Tensor(exp)} (the axes of modes {want_ext}, which sit at "
+                                    f"positions {want_modes})")
+                        wn = ["q[{}]".format(mm) for mm in want_ext]
                         if list(names) != wn:
                             return f"labels {list(names)} but the data holds modes {wn}"
                         return ""
